@@ -101,6 +101,8 @@ def consts():
                 if len(t.ops) == 1 and isinstance(t.ops[0], ast.Gt) and isinstance(t.comparators[0], ast.BinOp) \
                         and isinstance(t.comparators[0].op, ast.Mult):
                     l, r = t.comparators[0].left, t.comparators[0].right
+                    if isinstance(l, ast.Constant):      # `k * len(...)` is the same bound
+                        l, r = r, l
                     if isinstance(r, ast.Constant) and isinstance(r.value, int) and isinstance(l, ast.Call) and getattr(l.func, "id", "") == "len" \
                             and _is_self_attr(l.args[0], "privilege_levels") and isinstance(n.body[-1], ast.Raise):
                         found = r.value
@@ -144,6 +146,7 @@ def _marker(platform):
     """the substring tested by the platform's `_abort_config` guard (None when unguarded)"""
     spec = abort_spec(platform)
     return spec[1] if spec[0] == "ifSession" else None
+
 
 
 def level_rows(levels, marker=None):
